@@ -91,6 +91,16 @@ func (c *client) PushBlob(ctx context.Context, repo string, desc ociregistry.Des
 	// See:
 	//	https://github.com/distribution/distribution/issues/4065
 	//	https://github.com/golang/go/issues/63152
+	if desc.Size == 0 {
+		// With a zero Content-Length, net/http probes the body and falls back
+		// to chunked encoding when it turns out not to be empty, so
+		// the size mismatch would go unnoticed.
+		var buf [1]byte
+		if n, _ := io.ReadFull(r, buf[:]); n > 0 {
+			return ociregistry.Descriptor{}, fmt.Errorf("non-empty content does not match descriptor size 0: %w", ociregistry.ErrSizeInvalid)
+		}
+		r = http.NoBody
+	}
 	rreq := &ocirequest.Request{
 		Kind: ocirequest.ReqBlobStartUpload,
 		Repo: repo,
